@@ -71,7 +71,38 @@ def build(u):
     u.item(h, "HtlcManagerParams", "struct")
     u.item(h, "HtlcCheckResult", "enum")
     u.item(h, "PaymentState", "struct", extra_attr="pub")
+    u.env("paystate_env.rs")
+    u.env("handle_env.rs")
+    u.spec("paystate_shared.rs", shared=True)
+    u.spec("paystate.rs", shared=True)
+    u.raw("impl PaymentState {\n")
+    imp = h.find("PaymentState", "impl")
+    for f in ["add_htlc", "fail"]:
+        u.fn(h, h.find_fn_in(imp, f), f"htlc_manager::PaymentState::{f}", stub=True)
+    u.raw("}\n")
     u.spec("handle.rs")
     u.impl(h, "HtlcManager", ["check_htlc", "extract_trampoline_info", "trampoline_fee_or_expiry_insufficient"], "htlc_manager")
     u.free_fn(h, "default_response", "htlc_manager")
+    # ---- E6 slices of handle_htlc ----
+    im = h.find("HtlcManager", "impl")
+    hh = h.find_fn_in(im, "handle_htlc")
+    u._apply(h, im["start"], im["open"] + 1, [])
+    u.raw("\n")
+    u.ghost_callees["m:lock"] = "Tracked(w)"
+    u.slice(h, hh, "htlc_manager::HtlcManager::handle_htlc#prefix",
+            r"^let trampoline = match self\.check_htlc\(req\)", r"^let forward_msat = match req\.onion\.forward_msat",
+            "fn handle_htlc__prefix(&self, req: &HtlcAcceptedRequest, Tracked(w): Tracked<&mut World>) -> (r: Option<HtlcAcceptedResponse>)",
+            tail="None", wrap_return="Some",
+            note="slice handle_htlc#prefix: parameters are handle_htlc's own (&self, req); `return X` wrapped as Some(X), fall-through as None")
+    del u.ghost_callees["m:lock"]
+    u.ghost_callees["m:fail"] = "Tracked(g)"
+    u.ghost_callees["m:add_htlc"] = "Tracked(g)"
+    u.slice(h, hh, "htlc_manager::HtlcManager::handle_htlc#gate",
+            r"^if trampoline != payment_state\.trampoline", r"^payment_state\.add_htlc\(req, sender\)",
+            "fn handle_htlc__gate(&self, req: &HtlcAcceptedRequest, trampoline: TrampolineInfo, forward_msat: u64, "
+            "payment_state: &mut PaymentState, sender: oneshot::Sender<HtlcAcceptedResponse>, Tracked(g): Tracked<&mut G>)",
+            note="slice handle_htlc#gate: free variables trampoline: TrampolineInfo, forward_msat: u64, payment_state: &mut PaymentState, "
+                 "sender: oneshot::Sender<HtlcAcceptedResponse> are declared in the unit; each is forced by its use against an extracted real declaration "
+                 "(fee_sufficient(u64,u64), PaymentState::{fail,add_htlc}, TrampolineInfo fields)")
+    u.raw("}\n")
     u.raw("}\n} // verus!\nfn main() {}\n")
